@@ -1,13 +1,14 @@
 ---- MODULE MC_Headers ----
 EXTENDS Headers, Json
-MCLow == [n \in {"x-a", "X-A", "x-A", "x-b", "X-B", "Content-Length", "CONTENT-type", "User-Agent", "user-AGENT"} |->
+MCLow == [n \in {"x-a", "X-A", "x-A", "x-b", "X-B", "Content-Length", "CONTENT-type", "User-Agent", "user-AGENT", "Host", "hOST"} |->
            CASE n \in {"x-a", "X-A", "x-A"} -> "x-a" [] n \in {"x-b", "X-B"} -> "x-b" [] n = "Content-Length" -> "content-length"
-             [] n = "CONTENT-type" -> "content-type" [] OTHER -> "user-agent"]
+             [] n = "CONTENT-type" -> "content-type" [] n \in {"Host", "hOST"} -> "host" [] OTHER -> "user-agent"]
 MCDicts == [e |-> <<>>,
             a1 |-> <<<<"x-a", "1">>>>, A2 |-> <<<<"X-A", "2">>>>, a3 |-> <<<<"x-A", "3">>>>,
             b1 |-> <<<<"x-b", "1">>>>, ab |-> <<<<"X-A", "4">>, <<"X-B", "5">>>>,
             cl |-> <<<<"Content-Length", "0">>, <<"x-b", "6">>>>, ct |-> <<<<"CONTENT-type", "text/evil">>>>,
-            ua |-> <<<<"User-Agent", "ua1">>>>, UA |-> <<<<"user-AGENT", "ua2">>, <<"x-a", "7">>>>]
+            ua |-> <<<<"User-Agent", "ua1">>>>, UA |-> <<<<"user-AGENT", "ua2">>, <<"x-a", "7">>>>,
+            ho |-> <<<<"Host", "backend.internal">>>>, HO |-> <<<<"hOST", "second.internal">>, <<"x-b", "8">>>>]
 \* a history is printed when it is complete
 VARIABLE hist
 HInit == Init /\ hist = <<stack[1]>>
